@@ -30,10 +30,20 @@ static struct iauth_xquery_client *cli;
 static struct iauth_xquery_service *srv[NSRV];
 static struct iauth_xquery_service *vec_store[NSRV];
 
+#ifdef SRV_STATIC
+/* file-scope service records (fields stay concrete for the symbolic executor); only for entry
+ * points that never free a service */
+static struct { struct iauth_xquery_service s; char more[2]; } srv_obj[4];
+static unsigned srv_next;
+#endif
 static struct iauth_xquery_service *mk_srv(unsigned refs, int type, int configured, const char *name)
 {
+#ifdef SRV_STATIC
+    struct iauth_xquery_service *s = &srv_obj[srv_next++].s;
+#else
     struct iauth_xquery_service *s = malloc(sizeof(*s) + 2);
     V_ASSUME(s != NULL);
+#endif
     memset(s, 0, sizeof(*s));
     s->refs = refs; s->type = (enum iauth_xquery_type)type; s->configured = configured;
     s->name[0] = name[0]; s->name[1] = name[1]; s->name[2] = '\0';
@@ -80,6 +90,9 @@ static void xq_pre(void)
     req->data.root = node; req->data.count = 1;
     /* service table */
     V_ASSUME(in_tbl.used <= NSRV);
+#ifdef SRV_T0
+    in_srv0.type = SRV_T0; in_srv1.type = SRV_T1;      /* one job per pair of service protocols */
+#endif
     srv[0] = in_tbl.present[0] ? mk_srv(in_srv0.refs, in_srv0.type, in_srv0.configured, in_srv0.name) : NULL;
     srv[1] = in_tbl.present[1] ? mk_srv(in_srv1.refs, in_srv1.type, in_srv1.configured, in_srv1.name) : NULL;
 #if NSRV > 2
